@@ -29,6 +29,7 @@ import (
 	"strconv"
 	"strings"
 	"sync"
+	"syscall"
 	"time"
 )
 
@@ -79,6 +80,8 @@ func run(dir string, extraEnv []string, name string, args ...string) (string, er
 	cmd := exec.Command(name, args...)
 	cmd.Dir = dir
 	cmd.Env = append(env(), extraEnv...)
+	// children must not outlive a killed driver
+	cmd.SysProcAttr = &syscall.SysProcAttr{Pdeathsig: syscall.SIGKILL}
 	var buf bytes.Buffer
 	cmd.Stdout = &buf
 	cmd.Stderr = &buf
@@ -168,6 +171,30 @@ func seedFromEnv() uint64 {
 	return n
 }
 
+// sweepScratch removes scratch trees left behind by drivers that were killed.
+func sweepScratch() {
+	base := envOr("VERIF_SCRATCH", "/var/tmp")
+	ents, err := os.ReadDir(base)
+	if err != nil {
+		return
+	}
+	for _, e := range ents {
+		n := e.Name()
+		if !strings.HasPrefix(n, "verif-") || !e.IsDir() {
+			continue
+		}
+		i := strings.LastIndexByte(n, '-')
+		pid, err := strconv.Atoi(n[i+1:])
+		if err != nil || pid <= 0 {
+			continue
+		}
+		if _, err := os.Stat(fmt.Sprintf("/proc/%d", pid)); err == nil {
+			continue // owner still alive
+		}
+		os.RemoveAll(filepath.Join(base, n))
+	}
+}
+
 func scratchDir(id string) string {
 	base := envOr("VERIF_SCRATCH", "/var/tmp")
 	return filepath.Join(base, fmt.Sprintf("verif-%s-%d", id, os.Getpid()))
@@ -226,22 +253,22 @@ func prepare(sp *propSpec, dir string) (string, error) {
 }
 
 type job struct {
-	Mode     string   `json:"mode"`
-	Tier     string   `json:"tier"`
-	Seed     uint64   `json:"seed"`
-	From     int64    `json:"from"`
-	To       int64    `json:"to"`
-	Out      string   `json:"out"`
-	File     string   `json:"file,omitempty"`
-	DetFrom  int64    `json:"det_from"`
-	DetTo    int64    `json:"det_to"`
-	Deadline int64    `json:"deadline_s"`
-	RecordAll bool    `json:"record_all,omitempty"`
-	Repeat    int     `json:"repeat,omitempty"`
-	NoRecords bool    `json:"no_records,omitempty"`
-	Reverse  bool     `json:"reverse,omitempty"`
-	Known    []string `json:"known,omitempty"`
-	MaxViol  int      `json:"max_violation_records"`
+	Mode      string   `json:"mode"`
+	Tier      string   `json:"tier"`
+	Seed      uint64   `json:"seed"`
+	From      int64    `json:"from"`
+	To        int64    `json:"to"`
+	Out       string   `json:"out"`
+	File      string   `json:"file,omitempty"`
+	DetFrom   int64    `json:"det_from"`
+	DetTo     int64    `json:"det_to"`
+	Deadline  int64    `json:"deadline_s"`
+	RecordAll bool     `json:"record_all,omitempty"`
+	Repeat    int      `json:"repeat,omitempty"`
+	NoRecords bool     `json:"no_records,omitempty"`
+	Reverse   bool     `json:"reverse,omitempty"`
+	Known     []string `json:"known,omitempty"`
+	MaxViol   int      `json:"max_violation_records"`
 }
 
 type workerResult struct {
@@ -356,6 +383,7 @@ func check(id, tier string, keep bool, runsOverride, secsOverride int64) int {
 		die(2, "tier must be quick or thorough")
 	}
 	t0 := time.Now()
+	sweepScratch()
 	seed := seedFromEnv()
 	fmt.Printf("verif check %s tier=%s VERIF_SEED=%d\n", id, tier, seed)
 	dir := scratchDir(id)
@@ -604,32 +632,32 @@ func check(id, tier string, keep bool, runsOverride, secsOverride int64) int {
 	// ---- evidence
 	wall := time.Since(t0).Seconds()
 	cov := map[string]any{
-		"evaluations":         agg["runs"],
-		"distinct_nontrivial": int64(len(inter)),
-		"rule":                sp.Rule,
-		"samples":             samples,
-		"simulated_runs":      agg["runs"],
-		"runs_per_hour":       int64(float64(agg["runs"]) / searchWall * 3600),
-		"seeds_per_hour":      int64(float64(agg["runs"]) / searchWall * 3600),
-		"verif_seed":          seed,
-		"scheduler_steps":     agg["steps"],
-		"yield_points_passed": agg["yields"],
-		"context_switches":    agg["switches"],
+		"evaluations":                agg["runs"],
+		"distinct_nontrivial":        int64(len(inter)),
+		"rule":                       sp.Rule,
+		"samples":                    samples,
+		"simulated_runs":             agg["runs"],
+		"runs_per_hour":              int64(float64(agg["runs"]) / searchWall * 3600),
+		"seeds_per_hour":             int64(float64(agg["runs"]) / searchWall * 3600),
+		"verif_seed":                 seed,
+		"scheduler_steps":            agg["steps"],
+		"yield_points_passed":        agg["yields"],
+		"context_switches":           agg["switches"],
 		"preemptions_in_focus_files": agg["focus_preemptions"],
-		"simulated_time_s":    float64(agg["sim_time_ns"]) / 1e9,
-		"run_outcomes":        outcomes,
-		"fault_kinds_fired":   faults,
-		"probes":              probes,
-		"map_order_calls":     agg["map_calls"],
-		"map_order_permuted":  agg["map_permuted"],
-		"inconclusive":        agg["inconclusive"],
-		"discarded_cases":     agg["discarded"],
-		"signature_counts":    sigCounts,
-		"known_findings_seen": knownSeen,
+		"simulated_time_s":           float64(agg["sim_time_ns"]) / 1e9,
+		"run_outcomes":               outcomes,
+		"fault_kinds_fired":          faults,
+		"probes":                     probes,
+		"map_order_calls":            agg["map_calls"],
+		"map_order_permuted":         agg["map_permuted"],
+		"inconclusive":               agg["inconclusive"],
+		"discarded_cases":            agg["discarded"],
+		"signature_counts":           sigCounts,
+		"known_findings_seen":        knownSeen,
 		"determinism_selftest": map[string]any{"runs_compared": detChecked, "processes": 3, "gomaxprocs": detProcs, "mismatches": detBad,
 			"in_process_repeats_mismatch": agg["self_check_mismatch"]},
-		"components":     components,
-		"workers":        nsearch,
+		"components":      components,
+		"workers":         nsearch,
 		"instrumentation": readReport(dir),
 	}
 	ev := map[string]any{
